@@ -75,7 +75,8 @@ class LabelFinalizer:
                     # If this is a label jump, we ignore it, if it ALSO just jumps to a label right after,
                     # we only do this once because of performance concerns.
                     have_match = False
-                    if skip_redundant_label_jumps:
+                    # Only plain jumps are removed when redundant; a call or branch stays an operation.
+                    if skip_redundant_label_jumps and r[cursor].root.op_code.name == OP_JUMP:  # type: ignore
                         for label in cls._labels_after(r, cursor, False):
                             if r[cursor].label == label:  # type: ignore
                                 have_match = True
